@@ -121,9 +121,15 @@ namespace occa {
       if (arg >= 0) {
         expandArg(newTokens, source, args, arg);
       } else {
-        // __VA_ARGS__
+        // __VA_ARGS__: the variable arguments, including
+        //   the commas that separate them
         const int realArgc = (int) args.size();
         for (int i = argc; i < realArgc; ++i) {
+          if (i > argc) {
+            newTokens.push_back(
+              new operatorToken(source->origin, op::comma)
+            );
+          }
           expandArg(newTokens, source, args, i);
         }
       }
